@@ -17,11 +17,21 @@ CHECKS = {
          "frame_max x 12 (thorough 18) body lengths around multiples of the payload limit x mandatory x immediate x name classes, all 2^14 property subsets, boundary property values and pairs of consecutive publishes; checks method fields, header size and properties, body concatenation, per-frame size limit, absence of empty/extra body frames and contiguity.",
          "Observed at the queue to the I/O thread, i.e. before the write path (C01 covers that).",
          "DESIGN.md §6 C02", "seqx"),
+ "C05": ("fault_enumeration",
+         "exhaustive fault enumeration over a live connection under a controlled scheduler: every crash point x fault kind x every schedule within a deviation bound, on the real I/O thread and client threads",
+         "A full session (handshake, two channels, consumer, blocked call, publishes, close) runs on the real threads gated at every channel/poll operation; EOF and read error are injected at every 3rd (thorough: every) byte offset of the server->client stream, a write error at every client write call, a malformed frame at every server frame position, plus total silence under virtual time, server Connection.Close and a client-side protocol exception; each fault is combined with every schedule reachable with 1 (non-sweep faults 2; thorough 2/3) deviations from the default schedule. Oracle: no deadlock, no panic, every call after the failure returns Err, the consumer queue terminates, Connection::close returns the mapped root cause, I/O thread gone and transport dropped.",
+         "Scheduling granularity is channel/poll operations (one I/O-loop iteration is atomic); transport, broker and timer wheel are models (DESIGN.md 5.8, 5.9). Session shape is fixed (2 channels, 3 threads).",
+         "DESIGN.md §6 C05", "simx"),
  "C06": ("model_checking",
          "bounded-exhaustive enumeration of read scripts (cut placements x short-read/would-block) over real AMQP byte streams through the real FrameBuffer, against an envelope-level reference",
          "Every placement of up to 2 (thorough: 3) cuts, each a short read or a would-block, over every byte offset of streams up to 300 bytes and over a boundary menu for streams up to 9 KB (frame boundaries, size-field offsets, 4096-byte quantum +-2), plus one-byte-per-read, truncation+EOF at every offset and handler failure at each frame; the frames handed on, their timing relative to the read that completed them, byte counts and the final error are compared with a reference built from the stream's construction.",
          "Bounds: at most 3 cuts per stream; streams are the 20 listed in the evidence. The end-to-end half (client reaction to identical streams cut differently) is covered by the simx scenarios, not here.",
          "DESIGN.md §6 C06", "seqx"),
+ "C08": ("model_checking",
+         "stateless deviation-bounded exhaustive exploration of the close handshake on the real threads (controlled scheduler, mock transport, scripted broker), iterated over deviation bounds 0..2 (thorough 3)",
+         "Client- and server-initiated close racing with a consumer, a blocked call and publishes on two other threads; CloseOk alone or followed by EOF (in the same read or later), transport stalled or not, delivery cuts; every decision sequence with at most 2 (thorough 3) deviations from the default schedule is executed. Oracle: last frame written (Close(200,goodbye) / CloseOk), close() result, first error on each channel, later calls fail, exactly one terminal consumer message, thread and transport released.",
+         "Scheduling granularity is channel/poll operations; session shape fixed (2 channels, 3 client threads); reply texts limited to the listed codes.",
+         "DESIGN.md §6 C08", "simx"),
  "C10": ("model_checking",
          "explicit-state breadth-first search of the complete reachable state graph of the real ChannelSlots (via probe) with a reference set, plus counter-boundary sequences in child processes",
          "Complete reachable state graph for channel_max 1..3 (thorough: 4) under open(Some(i)) for every i in 0..=max+1, open(None), close, close of a non-open id, failing slot construction and drain; every transition is judged against the statement and the open set compared with a reference set. The u16 boundary (channel_max 65535, counter at 65533..65535, all ids open) is driven by real calls in child processes with a wall limit so that a spinning allocator is a verdict.",
